@@ -65,6 +65,9 @@ def run_lvalue(ctx, pt):
     """the length byte as a function of the data length, on a complete range of lengths (component domain)"""
     import math
     o = mk((128, 5, 1))
+    if not (hasattr(o, 'data_len') and hasattr(o, 'l_capturing')):
+        ctx.extra['skipped_internal_names_changed'] += 1     # not part of the public API: no verdict rather than a false alarm
+        return
     bad = []
     for n in range(pt[0], pt[1]):
         o.data_len = n
@@ -90,6 +93,10 @@ def run_ratio(ctx, pt):
     """quartile ratios for every pair q <= q3: the bucket array of a live object is set by hand (non-initial state),
     then the digest is finalised; model: floor(100 q / q3) mod 16 in exact integer arithmetic"""
     q3 = pt[0]
+    probe = mk((128, 5, 1))
+    if not all(hasattr(probe, a) for a in ('a_bucket', 'data_len', 'final', 'digest', 'lsh_code')):
+        ctx.extra['skipped_internal_names_changed'] += 1
+        return
     swp = lambda x: ((x & 15) << 4) | (x >> 4)
     for cfg in ((128, 5, 1), (48, 4, 3)):
         b = cfg[0]
